@@ -7,9 +7,18 @@ ops:  chunks k n                      → ok s₁ s₂ …          (batch sizes
       cache-fixed m  op…              → per apply: the version whose result is returned, or e
       cache-coded m  op…                 op := A a | W a v ; arrays a start at version 10·a;
                                          versions ≥ 1000 raise; `close` = same decade (v/10)
+      iab  MESH Q                     → ok t₁ α₁ β₁ t₂ …  | err m₁…      (`index_alpha_beta`)
+      pwa  k MESH TGT Q               → ok x₁ y₁ x₂ …     | err m₁…      (`apply(Q, batch_size=k)`, k = 0: None)
+      pip  k MESH Q                   → ok b₁ b₂ …                       (`pwa_point_in_pointcloud`)
+      chainpwa-fixed k tx ty MESH TGT Q  → as pwa, for TransformChain([Translation, PiecewiseAffine]), repaired
+      chainpwa-coded k tx ty MESH TGT Q  → the generic batching loop (first failing batch raises)
+      chain k  m MEMBER…  Q           → ok rows…   MEMBER := A <mat> | D n d₁…d_n   (TransformChain / WithDims)
+         MESH := <mat of source points> n_tris i j k …     TGT, Q := <mat>     <mat> := r c x₁₁ … (row major)
 -/
 import MenpoModel.Core.Codec
 import MenpoModel.Core.C09
+import MenpoModel.Core.C09Pwa
+import MenpoModel.Core.C09Chain
 
 namespace MenpoModel.Drive.C09
 open MenpoModel.Codec MenpoModel.C09
@@ -34,6 +43,32 @@ def closeD (a b : Nat) : Bool := a / 10 == b / 10
 def fmtRun (l : List (Nat × Except Unit Nat)) : String :=
   "ok " ++ " ".intercalate (l.map fun p => match p.2 with | .ok v => toString v | .error _ => "e")
 
+def toPts (m : List (List Rat)) : List Pt := m.map fun r => (r.getD 0 0, r.getD 1 0)
+
+def pPts : P (List Pt) := do let m ← pMat; pure (toPts m)
+def pTri : P (Nat × Nat × Nat) := do let i ← pNat; let j ← pNat; let k ← pNat; pure (i, j, k)
+def pBatch : P (Option Nat) := do let k ← pNat; pure (if k = 0 then none else some k)
+
+def fmtPts (r : Except (List Bool) (List Pt)) : String :=
+  match r with
+  | .ok ps => "ok " ++ fmtRats (ps.flatMap fun p => [p.1, p.2])
+  | .error m => "err " ++ fmtBools m
+
+inductive Member where
+  | aff (m : List (List Rat))
+  | dims (d : List Nat)
+
+def pMember : P Member := do
+  let t ← tok
+  match t with
+  | "A" => do let m ← pMat; pure (.aff m)
+  | "D" => do let d ← pList pNat; pure (.dims d)
+  | _ => failure
+
+def Member.fn : Member → List PtN → List PtN
+  | .aff m => List.map (affPt m)
+  | .dims d => List.map (withDims d)
+
 def step (toks : List String) : String :=
   match toks with
   | ["chunks", k, n] => match k.toNat?, n.toNat? with
@@ -51,6 +86,43 @@ def step (toks : List String) : String :=
   | "cache-coded" :: rest => match runP (pList pOp) rest with
     | some ops => fmtRun (runCoded closeD computeD { heap := fun a => 10 * a, memo := none } ops)
     | none => "bad-op"
+  | "iab" :: rest =>
+    match runP (do let sp ← pPts; let tl ← pList pTri; let q ← pPts; pure (sp, tl, q)) rest with
+    | some (sp, tl, q) => match indexAlphaBeta (mkTris sp tl) q with
+      | .ok iab => "ok " ++ " ".intercalate (iab.map fun t => toString t.1 ++ " " ++ fmtRat t.2.1 ++ " " ++ fmtRat t.2.2)
+      | .error m => "err " ++ fmtBools m
+    | none => "bad-op"
+  | "pwa" :: rest =>
+    match runP (do let k ← pBatch; let sp ← pPts; let tl ← pList pTri; let tp ← pPts; let q ← pPts
+                   pure (k, sp, tl, tp, q)) rest with
+    | some (k, sp, tl, tp, q) => fmtPts (pwaApplyBatched (mkTris sp tl) (mkTris tp tl) k q)
+    | none => "bad-op"
+  | "pip" :: rest =>
+    match runP (do let k ← pBatch; let sp ← pPts; let tl ← pList pTri; let q ← pPts; pure (k, sp, tl, q)) rest with
+    | some (k, sp, tl, q) => "ok " ++ fmtBools (pointInPointcloud (mkTris sp tl) k q)
+    | none => "bad-op"
+  | op :: rest =>
+    if op == "chainpwa-fixed" || op == "chainpwa-coded" then
+      match runP (do let k ← pBatch; let tx ← pRat; let ty ← pRat; let sp ← pPts; let tl ← pList pTri
+                     let tp ← pPts; let q ← pPts; pure (k, tx, ty, sp, tl, tp, q)) rest with
+      | some (k, tx, ty, sp, tl, tp, q) =>
+        let d : Pwa Pt Pt := (toPwa (mkTris sp tl) (mkTris tp tl)).wrap (fun p => (p.1 + tx, p.2 + ty)) id
+        match k with
+        | none => fmtPts (d.apply q)
+        | some k =>
+          if q.length = 0 then fmtPts (d.apply q)
+          else if op == "chainpwa-fixed" then fmtPts (batchedFixed d k q) else fmtPts (applyBatchedE d.apply k q)
+      | none => "bad-op"
+    else if op == "chain" then
+      match runP (do let k ← pBatch; let ms ← pList pMember; let q ← pMat; pure (k, ms, q)) rest with
+      | some (k, ms, q) =>
+        let f := chainApply (ms.map Member.fn)
+        let r := match k with
+          | none => f q
+          | some k => if q.length = 0 then f q else applyBatched f k q
+        "ok " ++ fmtMat r
+      | none => "bad-op"
+    else "bad-op"
   | _ => "bad-op"
 
 end MenpoModel.Drive.C09
